@@ -11,16 +11,26 @@ AREA = "c11"
 LEAN_PROPS = "Litep2pVerif.Props.C11"
 THEOREMS = ["handler_total", "bug_table", "grammar_alternation_partial", "grammar_alternation_witness",
             "no_failure_while_open_partial", "closed_on_disconnect", "notif_only_while_open",
-            "no_bug_reachable_witness", "open_answered_once_witness", "inbound_after_accept_witness"]
+            "no_bug_reachable_partial", "no_bug_next_partial", "no_bug_reachable_witness",
+            "open_answered_once_partial", "open_answered_once_witness",
+            "inbound_after_accept_partial", "inbound_after_accept_witness"]
 MANIFEST = {
     "text": "Lean 4 theorems about an executable model of the notification per-peer state machine (all states, every "
             "handler in the code's order of checks, debug_assert branches as explicit bug outputs) composed with its "
             "environment (Connection tasks with their two-step close, handshake service, validation answers, transport "
-            "obeying the C08 grammar) as a labelled transition system: handler totality with the computed bug table; "
-            "opened/closed alternation, no failure while open, every acknowledged open request answered exactly once, "
-            "inbound streams opened only after acceptance, closed reported on disconnect, no reachable bug output — "
-            "each for every schedule by invariant, three of them under an explicit scheduling/usage hypothesis because "
-            "the full statement is false of the code (witness theorems + known findings replayed on the real component). "
+            "obeying the C08 grammar) as a labelled transition system. Proved for every (state, event) pair: handler "
+            "totality with the computed bug table. Proved by invariant for every schedule of the restricted system "
+            "ReachP (all schedules and environment behaviours minus the three known findings, each excluded by one "
+            "explicit hypothesis: a closing Connection task finishes before the next event of that peer; a validation "
+            "answer is delivered only for the substream under validation; no SubstreamOpenFailure for the outbound "
+            "substream of an accepted/simultaneous stream): opened/closed alternate and no open failure is reported "
+            "while open; closed is reported after a disconnect; no debug_assert fires; request markers and answers "
+            "(opened / open failure; the user's own Reject counts as the answer, the code reports nothing then) "
+            "alternate strictly on the user channel, an open request for a connected idle peer is always taken up, and "
+            "nothing is owed once transport, handshakes, validations and timers are quiet; every opened is preceded in its "
+            "negotiation round by the Accept the user gave for exactly its inbound substream, or by auto-accept while the "
+            "user's own request is outstanding. The unrestricted statements are false of the code: four witness theorems, "
+            "replayed on the real component as known findings. "
             "Tie: seeded operation histories (2-3 peers, with/without auto-accept, simultaneous opens, rejections, "
             "handshake failures, substream open failures, drops and reconnects, timers, stalled closes) run on the real "
             "NotificationProtocol/NotificationHandle and on the model, every observation compared incl. internal peer "
@@ -49,6 +59,10 @@ ASSUMPTIONS = ["the transport answers each substream request at most once and on
                "protocol handles the next event for that peer (false only if Substream::close() stays pending)",
                "partial theorems: the user answers a ValidateSubstream event before the protocol abandons that inbound "
                "substream (validation answers are keyed by peer, not by substream)",
+               "partial theorems: the transport reports no SubstreamOpenFailure for the outbound substream of a stream "
+               "whose inbound substream has already arrived (the handler then keeps the dead id as pending_open)",
+               "open_answered_once counts the user's own Reject of the peer's inbound substream as the answer to the "
+               "user's outstanding open request (the code reports nothing in that case)",
                "every spawned future is eventually polled; Substream::close() eventually completes"]
 KEEP_PREFIX = 1
 
